@@ -16,6 +16,10 @@ def names_h():
         d(M + '__lock_shared__0', 'vf_mutex_lock_shared')
         d(M + '__unlock_shared__0', 'vf_mutex_unlock_shared')
         d(M + '__try_lock_shared__0', 'vf_mutex_try_lock_shared')
+        d(M + '__try_lock_for__1(m, t)', 'vf_mutex_try_lock_timed(m)')
+        d(M + '__try_lock_until__1(m, t)', 'vf_mutex_try_lock_timed(m)')
+        d(M + '__try_lock_shared_for__1(m, t)', 'vf_mutex_try_lock_shared_timed(m)')
+        d(M + '__try_lock_shared_until__1(m, t)', 'vf_mutex_try_lock_shared_timed(m)')
         d(M + '__dtor', 'vf_mutex_dtor')
         d(M + '__ctor', 'vf_mutex_ctor')
         for L, p in (('std_unique_lock_' + M, 'vf_ulock'), ('std_shared_lock_' + M, 'vf_slock')):
@@ -32,6 +36,8 @@ def names_h():
             d(L + '__lock__0', p + '_lock')
             d(L + '__unlock__0', p + '_unlock')
             d(L + '__try_lock__0', p + '_try_lock')
+            d(L + '__try_lock_for__1(l, t)', p + '_try_lock_timed(l)')
+            d(L + '__try_lock_until__1(l, t)', p + '_try_lock_timed(l)')
             d(L + '__owns_lock__0', 'vf_lock_owns')
             d(L + '__op_bool__0', 'vf_lock_owns')
             d(L + '__op_conv__0', 'vf_lock_owns')
